@@ -405,7 +405,8 @@ def gen_op(rng, w, stats):
             if i == len(es) - 1:
                 e_new, lo_p, hi_p = es[-1] + rng.choice([1, 30, 360, 777]), ps[-1] + 1, MAXP
             else:
-                e_new, lo_p, hi_p = rng.randint(max(es[i] + 1, EPY), max(es[i + 1] - 1, EPY)), ps[i] + 1, ps[i + 1] - 1
+                lo_e, hi_e = max(es[i] + 1, EPY), es[i + 1] - 1
+                e_new, lo_p, hi_p = (rng.randint(lo_e, hi_e) if lo_e <= hi_e else 0), ps[i] + 1, ps[i + 1] - 1
             if lo_p <= hi_p and e_new not in opts and e_new >= EPY:
                 return ["AddOptions", OWNER, [[e_new, rng.randint(lo_p, hi_p)]]]
         return ["SetBurn", OWNER, rng.randint(0, MAXP)]
